@@ -88,19 +88,57 @@ theorem dropLink_client {s : Node} {c : Nat} {x : Conn} {l : Link} {c' : Nat} {m
       · cases hr
   · simp at h
 
-theorem dropLink_fwd {s : Node} {c : Nat} {x : Conn} {l : Link} {c' : Nat} {f : Fwd}
-    (h : (c', f) ∈ (dropLink s c x l).2.2) : c' = c ∧ ∃ rid cid, l.initC = some (rid, cid) ∧ f = .init rid cid ∧ retries s = true := by
-  unfold dropLink at h
-  simp only at h
+/-- what `Transparency*ServerProtocol.Close` writes to the leader: the connection's will commands, preceded by the INIT it
+announced when the link has to be opened for them -/
+def WillOf (x : Conn) (f : Fwd) : Prop :=
+  (∃ w ∈ x.wills, f = .lk w.1 w.2) ∨ (∃ rid cid, x.initCmd = some (rid, cid) ∧ f = .init rid cid)
+
+theorem closeFwd_mem {s : Node} {x : Conn} {f : Fwd} (h : f ∈ closeFwd s x) : WillOf x f := by
+  unfold closeFwd at h
   split at h
-  · rename_i hr
-    unfold openFwd at h
-    split at h
+  · split at h
+    · rename_i l n pre hcc
+      simp only [List.mem_append] at h
+      rcases h with h | h
+      · right
+        rcases checkClient_some hcc with ⟨_, _, rfl⟩ | ⟨_, _, _, rfl, _, _⟩
+        · cases h
+        · cases hk : x.kind <;> simp only [hk] at h
+          · cases hi : x.initCmd with
+            | none => simp [hi, openFwd] at h
+            | some p => obtain ⟨r, cid⟩ := p; simp [hi, openFwd] at h; exact ⟨r, cid, rfl, h⟩
+          · simp [openFwd] at h
+      · left
+        simp only [willFwd, List.mem_map] at h
+        obtain ⟨w, hw, rfl⟩ := h
+        exact ⟨w, hw, rfl⟩
+    · cases h
+  · cases h
+
+theorem dropLink_fwd {s : Node} {c : Nat} {x : Conn} {l : Link} {c' : Nat} {f : Fwd}
+    (h : (c', f) ∈ (dropLink s c x l).2.2) :
+    c' = c ∧ ((∃ rid cid, l.initC = some (rid, cid) ∧ f = .init rid cid ∧ retries s = true) ∨ WillOf x f) := by
+  unfold dropLink at h
+  simp only [List.mem_append] at h
+  rcases h with h | h
+  · split at h
+    · rename_i hr
+      cases hic : l.initC with
+      | none => simp [hic, openFwd] at h
+      | some p =>
+        obtain ⟨r, cid⟩ := p
+        simp [hic, openFwd] at h
+        exact ⟨h.1, Or.inl ⟨r, cid, rfl, h.2, hr⟩⟩
     · simp at h
-    · rename_i r cid hic
-      simp at h
-      exact ⟨h.1, r, cid, hic, h.2, hr⟩
-  · simp at h
+  · simp only [List.mem_map] at h
+    obtain ⟨g, hg, he⟩ := h
+    cases he
+    have hgen : ∀ (b : Prop) [Decidable b], f ∈ (if b then closeFwd s { x with link := none } else []) → WillOf x f := by
+      intro b _ hb
+      split at hb
+      · exact closeFwd_mem (x := { x with link := none }) hb
+      · cases hb
+    exact ⟨rfl, Or.inr (hgen _ hg)⟩
 
 theorem dropAll_client {s : Node} {xs : List Conn} {i : Nat} {c : Nat} {m : ToClient}
     (h : (c, m) ∈ (dropAll s i xs).2.1) :
